@@ -171,6 +171,9 @@ def _zero_pairs(ctx, pre, sfx):
 def obligations(enc, inst, tr):
     if tr.note("exception"):
         raise RuntimeError("harness exception: " + tr.note("exception"))
+    nan = FL.nan_obligations(tr)
+    if nan:
+        return nan
     ctx = FL.Ctx(enc, inst, tr)
     el, mode = ctx.el, inst["args"][4]
     if el == "LinearBushing":
@@ -202,6 +205,7 @@ def obligations(enc, inst, tr):
 
     if mode == "law":
         law_obs("", "")
+        obs.append(eq(enc, tag + "PE: calcPotentialEnergyContribution before any force evaluation = documented PE", ctx.out("PE0"), L.PE, hyps=hy))
         if el in ("Gravity", "GravityVec"):
             gravity_accessors("")
         return obs
